@@ -1693,7 +1693,7 @@ def _ufunc_set_1d(
         # NOTE: try to sort, as set ordering is not stable
         try:
             result = sorted(result) #type: ignore
-        except TypeError:
+        except (TypeError, ValueError): # ValueError: a tuple compared with a NumPy scalar gives an array
             pass
         post, _ = iterable_to_array_1d(result, dtype) # return immutable array
         return post
